@@ -59,7 +59,7 @@ func verifStack() string {
 	lines := strings.Split(string(buf[:n]), "\n")
 	var keep []string
 	for _, l := range lines {
-		if strings.Contains(l, "/repo/") || strings.Contains(l, "/verif/props") || strings.Contains(l, "/verif/worlds") {
+		if strings.Contains(l, "/udp/") || strings.Contains(l, "/tcp/") || strings.Contains(l, "/net/") || strings.Contains(l, "/message/") || strings.Contains(l, "/verif/props") || strings.Contains(l, "/verif/worlds") {
 			keep = append(keep, strings.TrimSpace(l))
 		}
 	}
@@ -76,16 +76,16 @@ func verifCallSite() string {
 	fr := runtime.CallersFrames(pcs[:n])
 	for {
 		f, more := fr.Next()
+		lib := strings.HasPrefix(f.Function, "github.com/plgd-dev/go-coap/v3/")
 		if strings.HasSuffix(f.Function, ".ReleaseMessage") || strings.HasSuffix(f.Function, ".AcquireMessage") {
 			// thin wrappers (Conn.ReleaseMessage, Session.ReleaseMessage, ...): the caller decides who acts
-		} else if strings.Contains(f.File, "/repo/") && !strings.Contains(f.File, "/message/pool/") {
+		} else if lib && !strings.HasPrefix(f.Function, "github.com/plgd-dev/go-coap/v3/message/pool.") {
 			name := f.Function
 			if i := strings.LastIndex(name, "/"); i >= 0 {
 				name = name[i+1:]
 			}
 			return name
-		}
-		if strings.Contains(f.File, "/verif/") && !strings.Contains(f.File, "/vrt/") {
+		} else if !lib && (strings.HasPrefix(f.Function, "verif/props") || strings.HasPrefix(f.Function, "verif/worlds") || strings.HasPrefix(f.Function, "main.")) {
 			return "harness(application)"
 		}
 		if !more {
